@@ -1,6 +1,7 @@
 package main
 
 import (
+	"strconv"
 	"encoding/json"
 	"fmt"
 	"math/rand"
@@ -68,6 +69,15 @@ func checkC01(ctx *Ctx, sc *Scenario) {
 			ctx.Violation("no-request-after-cycle:"+class, fmt.Sprintf("cycle %d", rec.Idx), sc)
 			return true
 		}
+		if rec.Idx == 0 {
+			// the limits in force are the ones the user configured (resp. the measured ones where nothing is configured)
+			if sc.Fan.ExpMax != nil && rec.MaxBefore != *sc.Fan.ExpMax {
+				ctx.Violation("fan-maximum-not-the-configured-or-measured-one:"+c01LimitClass(sc), fmt.Sprintf("%s: maximum in force %d, expected %d (configured max %s, configured min %s)", class, rec.MaxBefore, *sc.Fan.ExpMax, pstr(sc.Fan.CfgMax), pstr(sc.Fan.CfgMin)), sc)
+			}
+			if sc.Fan.ExpMin != nil && rec.MinBefore != *sc.Fan.ExpMin {
+				ctx.Violation("fan-minimum-not-the-configured-or-measured-one:"+c01LimitClass(sc), fmt.Sprintf("%s: minimum in force %d, expected %d (configured max %s, configured min %s)", class, rec.MinBefore, *sc.Fan.ExpMin, pstr(sc.Fan.CfgMax), pstr(sc.Fan.CfgMin)), sc)
+			}
+		}
 		r := rec.Request
 		raised := rec.StatsAfter.IncreasedMinPwmCount > rec.StatsBefore.IncreasedMinPwmCount
 		suffix := ""
@@ -117,13 +127,7 @@ func checkC01(ctx *Ctx, sc *Scenario) {
 		return false
 	})
 	if nontrivial != "" {
-		lim := "range"
-		switch {
-		case sc.Fan.CfgMin != nil:
-			lim = "configured"
-		case sc.Fan.Measured != nil:
-			lim = "measured"
-		}
+		lim := c01LimitClass(sc)
 		ctx.Nontrivial(fmt.Sprintf("%s|%s|m%d|%s|%s|%s|ns=%v|%s|%d", sc.Fan.Kind, sc.Loop.Kind, sc.Loop.M, sc.Map.Kind, lim, nontrivial, sc.Fan.NeverStop, sc.Plant.Kind, hashStr(jsonStr(sc.Steps))%1000))
 	}
 }
@@ -157,4 +161,23 @@ func init() {
 			checkC01(ctx, genC01(ctx.Rng, true))
 		}
 	})
+}
+
+func c01LimitClass(sc *Scenario) string {
+	switch {
+	case sc.Fan.Measured != nil && (sc.Fan.CfgMin != nil || sc.Fan.CfgMax != nil):
+		return fmt.Sprintf("partly-configured(min=%v,start=%v,max=%v)", sc.Fan.CfgMin != nil, sc.Fan.CfgStart != nil, sc.Fan.CfgMax != nil)
+	case sc.Fan.CfgMin != nil:
+		return "configured"
+	case sc.Fan.Measured != nil:
+		return "measured"
+	}
+	return "range"
+}
+
+func pstr(p *int) string {
+	if p == nil {
+		return "-"
+	}
+	return strconv.Itoa(*p)
 }
